@@ -2,19 +2,23 @@
 # usage: tools/seed_regress.sh [tier] [name-glob]   — applies every kept seeded change to /repo in turn, runs the
 # property's check (no evidence written), undoes the change; prints one line per change.
 set -u
+# SEED_REPO (default /repo): the tree the changes are applied to - a clean scratch worktree of /repo while /repo is busy.
+# The script works from the directory it lives in, so a snapshot of /verif (git archive) can run it undisturbed by edits.
 TIER=${1:-quick}; GLOB=${2:-*}
-cd /verif
-if [ -n "$(git -C /repo status --porcelain)" ]; then echo "/repo is not clean"; exit 7; fi
+ROOT=$(cd "$(dirname "$0")/.." && pwd)
+R=${SEED_REPO:-/repo}
+cd $ROOT
+if [ -n "$(git -C $R status --porcelain)" ]; then echo "$R is not clean"; exit 7; fi
 miss=0
-for d in /verif/seeded/$GLOB/; do
+for d in $ROOT/seeded/$GLOB/; do
   n=$(basename $d); id=${n%%-*}
   # a change written against one property may belong to another property's subject: seeded/<name>/check names the check to run
   [ -f $d/check ] && id=$(cat $d/check)
   if [ -f $d/neutralised ]; then echo "$n: neutralised by a later fix (skipped)"; continue; fi
-  if ! git -C /repo apply --check $d/patch.diff 2>/dev/null; then echo "$n: PATCH DOES NOT APPLY"; miss=$((miss+1)); continue; fi
-  git -C /repo apply $d/patch.diff
-  OUT=$(VERIF_NO_EVIDENCE=1 ./check $id $TIER 2>&1); RC=$?
-  git -C /repo apply -R $d/patch.diff 2>/dev/null || git -C /repo checkout -- .
+  if ! git -C $R apply --check $d/patch.diff 2>/dev/null; then echo "$n: PATCH DOES NOT APPLY"; miss=$((miss+1)); continue; fi
+  git -C $R apply $d/patch.diff
+  OUT=$(VERIF_REPO=$R VERIF_NO_EVIDENCE=1 ./check $id $TIER 2>&1); RC=$?
+  git -C $R apply -R $d/patch.diff 2>/dev/null || git -C $R checkout -- .
   case $RC in
     1) echo "$n: caught";;
     0) echo "$n: MISSED"; miss=$((miss+1));;
